@@ -157,7 +157,8 @@ let () =
             let toks = if raw = "-" then None
               else Some (List.filter_map (fun w -> if w = "" then None else (match tok_of_text w with Some t -> Some t | None -> None))
                            (String.split_on_char ',' raw)) in
-            let elem_ok = if get "elem" = "nonneg" then (fun q -> qle_bool { qnum = Z0; qden = XH } q) else (fun _ -> true) in
+            let elem_ok = if get "elem" = "nonneg" then (fun q -> qle_bool { qnum = Z0; qden = XH } q)
+              else if get "elem" = "pos" then (fun q -> not (qle_bool q { qnum = Z0; qden = XH })) else (fun _ -> true) in
             let (_, e) = vector_keyword (nat_of_int n) (on "presized") elem_ok toks in
             Printf.printf "%s initsafe=1 stepsafe=1\n" (verdict e)
           | "scripted" ->
@@ -198,7 +199,10 @@ let () =
             let n = nat_of_int (int_of_string (let v = get "n" in if v = "-" then "1" else v)) in
             let x = (match get "kind" with
                 | "colvarx" -> fst (colvarx_validate (qof "temp" "300") e)
-                | "walls" -> fst (walls_validate n e)
+                | "walls" ->
+                  let ws = (match get "w" with "-" -> [] | v -> List.map (fun t -> match parse_real (tok_of_text t) with QVal q -> q | _ -> { qnum = z_of_int 1; qden = XH })
+                                                                   (List.filter (fun x -> x <> "") (String.split_on_char ',' v))) in
+                  fst (walls_validate ws n e)
                 | "opesx" -> fst (opesx_validate (qof "kbt" "1") (get "bfinf" = "1") (get "explore" = "1") e)
                 | "metax" -> fst (metax_validate n e)
                 | "abfshared" -> fst (abfshared_validate rof e)
@@ -265,7 +269,10 @@ let () =
                 | f :: _ -> String.sub f 2 (String.length f - 2) | [] -> "") in
             let opt_name n = if n = "_" || n = "" then None else Some (coq_string n) in
             List.iter (fun cfg ->
+                let is_op = cfg = "RESET" || (String.length cfg > 5 && (String.sub cfg 0 5 = "DELB:" || String.sub cfg 0 5 = "DELC:")) in
                 if cfg = "RESET" then st := reset6 !st
+                else if is_op && String.sub cfg 0 5 = "DELB:" then st := delete_bias6 (coq_string (String.sub cfg 5 (String.length cfg - 5))) !st
+                else if is_op then st := delete_cv6 (coq_string (String.sub cfg 5 (String.length cfg - 5))) !st
                 else begin
                   let tokfield tag = (match field cfg tag with "" -> None | v -> tok_of_text v) in
                   let files = List.map (fun f -> if f = "missing" then None else if f = "empty" then Some [] else
@@ -293,7 +300,7 @@ let () =
                 let reg = String.concat "/" (List.map (fun (n, v) -> ocaml_string n ^ ":" ^ (match v with
                     | None -> "NULL" | Some [] -> "empty" | Some l -> String.concat "," (List.map string_of_z l))) s.q_reg) in
                 outs := (Printf.sprintf "%s cv=%s bias=%s reg=%s named=%s act=%s traj=%s restart=%s crash=%d"
-                           (if cfg = "RESET" then "reset" else if s.q_err then "reject" else "accept")
+                           (if is_op then "reset" else if s.q_err then "reject" else "accept")
                            (String.concat "," (List.map ocaml_string s.q_cvs))
                            (String.concat "," (List.map (fun ((n, _), _) -> ocaml_string n) s.q_biases))
                            reg
